@@ -3,6 +3,7 @@
 package ipoe
 
 import (
+	"bytes"
 	"context"
 	"encoding/binary"
 	"encoding/json"
@@ -24,21 +25,18 @@ import (
 )
 
 // IPoE dataplane calls of the fake southbound
-func (s *c12SB) c12macIdx(mac net.HardwareAddr) int {
-	if len(mac) != 6 {
-		return -1
-	}
-	return int(mac[5])
+func (s *c12SB) c12macIdx(mac net.HardwareAddr, svlan, cvlan uint16) int {
+	return c12IdxOfKey(mac, svlan, cvlan) // the FULL key: every MAC byte, S-VLAN, C-VLAN
 }
 func (s *c12SB) AddIPoESession(clientMAC, localMAC net.HardwareAddr, encapIfIndex uint32, outerVLAN, innerVLAN uint16, decapVrfID uint32) (uint32, error) {
-	i := s.c12macIdx(clientMAC)
-	if int(innerVLAN) != 10+i || outerVLAN != 100 || encapIfIndex != 10 || len(localMAC) != 6 || localMAC[5] != 0x33 {
+	i := s.c12macIdx(clientMAC, outerVLAN, innerVLAN)
+	if i < 0 || encapIfIndex != c12Ident(i).encap || len(localMAC) != 6 || localMAC[5] != 0x33 {
 		s.log.add("BADADD%d", i)
 	}
 	return s.add(i)
 }
 func (s *c12SB) DeleteIPoESessionAsync(clientMAC net.HardwareAddr, encapIfIndex uint32, innerVLAN uint16, cb func(error)) {
-	s.del(s.c12macIdx(clientMAC))
+	s.del(s.c12macIdx(clientMAC, c12SvlanOfEncap(encapIfIndex), innerVLAN))
 	cb(nil)
 }
 func (s *c12SB) IPoESetSessionIPv4(sw uint32, clientIP net.IP, isAdd bool) error {
@@ -71,6 +69,7 @@ func (p *c12IPoE) newComponent(h *c12Handle) {
 	c12Kpd = e.kpd
 	ifMgr := ifmgr.New()
 	ifMgr.Add(&ifmgr.Interface{SwIfIndex: 10, SupSwIfIndex: 2, Name: "TenGigE0/0.100", Type: ifmgr.IfTypeSub, OuterVlanID: 100})
+	ifMgr.Add(&ifmgr.Interface{SwIfIndex: 11, SupSwIfIndex: 2, Name: "TenGigE0/0.200", Type: ifmgr.IfTypeSub, OuterVlanID: 200})
 	ifMgr.Add(&ifmgr.Interface{SwIfIndex: 2, Name: "TenGigE0/0", Type: ifmgr.IfTypeHardware, MAC: []byte{0x52, 0x54, 0x00, 0x11, 0x22, 0x33}})
 	// a DHCP packet is already waiting when the component starts (unbuffered: the send completes when the packet
 	// consumer takes it); it carries no DHCP layer and is dropped by processDHCPPacket
@@ -108,7 +107,11 @@ func (p *c12IPoE) live(i int) bool { return p.get(i) != nil }
 func (p *c12IPoE) create(n c12New, v4, v6 net.IP, pd *net.IPNet, t0 time.Time, swif uint32) bool {
 	s := &SessionState{
 		SessionID: c12SessID(n.idx), AcctSessionID: fmt.Sprintf("acct%d", n.idx),
-		MAC: net.HardwareAddr{2, 0, 0, 0, 0, byte(n.idx)}, OuterVLAN: 100, InnerVLAN: uint16(10 + n.idx), EncapIfIndex: 10,
+		MAC: append(net.HardwareAddr(nil), c12Ident(n.idx).mac...), OuterVLAN: c12Ident(n.idx).svlan,
+		InnerVLAN: c12Ident(n.idx).cvlan, EncapIfIndex: c12Ident(n.idx).encap,
+		ClientID: []byte{1, byte(n.idx), 0xfe}, CircuitID: []byte(fmt.Sprintf("circuit-%d", n.idx)),
+		RemoteID: []byte{0xde, 0xad, byte(n.idx)}, DHCPv6DUID: []byte{0, 3, 0, 1, byte(n.idx), 9},
+		Attributes:    map[string]string{"k": fmt.Sprintf("v%d", n.idx)},
 		IPoESwIfIndex: swif, State: "init", IPv4: v4, LeaseTime: uint32(n.lease4), BoundAt: c12Time(t0, n.age4),
 		ActivatedAt: c12Time(t0, n.age4), Hostname: "t-", AAAApproved: n.approved, IPoESessionCreated: n.created,
 		IPv6Address: v6, IPv6Prefix: pd, IPv6LeaseTime: uint32(n.lease6), IPv6BoundAt: c12Time(t0, n.age6), IPv6Bound: n.v6bound,
@@ -194,10 +197,13 @@ func c12Flags(bound, rel4, approved, created, v6b bool) string {
 
 func (p *c12IPoE) show(s *SessionState, kpd int) string {
 	i, _ := strconv.Atoi(c12Idx(s.SessionID))
-	id := "ok"
-	if len(s.MAC) != 6 || int(s.MAC[5]) != i || s.OuterVLAN != 100 || int(s.InnerVLAN) != 10+i ||
-		s.Username != fmt.Sprintf("u%d", i) || s.AcctSessionID != fmt.Sprintf("acct%d", i) || s.ServiceGroup.URPF != "strict" {
-		id = "IDENTITY"
+	id := c12KeyStr(s.MAC, s.OuterVLAN, s.InnerVLAN) // the full key, as restored
+	if s.EncapIfIndex != c12Ident(i).encap ||
+		s.Username != fmt.Sprintf("u%d", i) || s.AcctSessionID != fmt.Sprintf("acct%d", i) || s.ServiceGroup.URPF != "strict" ||
+		!bytes.Equal(s.ClientID, []byte{1, byte(i), 0xfe}) || string(s.CircuitID) != fmt.Sprintf("circuit-%d", i) ||
+		!bytes.Equal(s.RemoteID, []byte{0xde, 0xad, byte(i)}) || !bytes.Equal(s.DHCPv6DUID, []byte{0, 3, 0, 1, byte(i), 9}) ||
+		s.Attributes["k"] != fmt.Sprintf("v%d", i) {
+		id += "!IDENTITY"
 	}
 	return fmt.Sprintf("%d:%s:%d:%s:%s:%s:%s:%s", i, strings.TrimPrefix(s.Hostname, "t"), s.IPoESwIfIndex,
 		c12Flags(s.State == "bound", s.State == "released", s.AAAApproved, s.IPoESessionCreated, s.IPv6Bound),
@@ -209,8 +215,14 @@ func (p *c12IPoE) dumpLive(kpd int) string {
 	p.c.sessionIndex.Range(func(k, v any) bool {
 		s := v.(*SessionState)
 		s.mu.Lock()
-		out = append(out, p.show(s, kpd))
+		line := p.show(s, kpd)
+		mac, sv, cv := s.MAC, s.OuterVLAN, s.InnerVLAN
 		s.mu.Unlock()
+		// the protocol's own lookup (MAC, S-VLAN, C-VLAN) must lead to THIS session
+		if got, ok := p.c.sessions.Load(p.c.makeSessionKeyV4(mac, sv, cv)); !ok || got.(*SessionState) != s {
+			line += "!KEYMISS"
+		}
+		out = append(out, line)
 		return true
 	})
 	sort.Slice(out, func(a, b int) bool {
